@@ -9,7 +9,11 @@ package c05
 //   - an external event is observed through the real path MsgClaim -> Attest -> TryAttestation (single oracle =>
 //     quorum at once), i.e. processAttestation + cleanupTimedOutBatches + cleanupTimeOutBridgeCall run exactly as in
 //     production; pending bridge-call results are applied with keeper.ExecuteClaim (what the executeClaim precompile calls);
-//   - fxcore height is moved with ctx.WithBlockHeight (no end blocker: slashing is out of scope here);
+//   - fxcore height is moved with ctx.WithBlockHeight and the keeper's real EndBlocker runs at the new height (the signed
+//     window is set far beyond every height reached, so the slashing part of EndBlocker is idle: slashing is C07/C13);
+//   - an *external chain ghost* follows what the bridge contract would accept (FxBridgeLogic.sol: batch nonce above the last
+//     executed nonce of its token, block.number < timeout, bridge-call nonce once), fed only by what fxcore created and
+//     by the observed events; events satisfying these rules with non-decreasing heights are "admissible";
 //   - after every op one canonical observation line: result kind, id counters, pool, batches with their transfers,
 //     bridge calls, pending results, observed heights, balances (base + bridge denom) of the actors.  The same op lines
 //     are fed to the Lean model driver and the lines are diffed by bin/check;
@@ -20,6 +24,8 @@ import (
 	"fmt"
 	"math/rand"
 	"os"
+	"path/filepath"
+	"regexp"
 	"sort"
 	"strconv"
 	"strings"
@@ -38,7 +44,7 @@ import (
 
 const (
 	nActors = 4
-	nTokens = 2
+	nTokens = 3
 	fundEach = 1_000_000 // of the base denom and of the bridge denom, per actor and token
 )
 
@@ -81,8 +87,14 @@ func setupChain(t *testing.T, s *hx.Suite, chain string, k crosschainkeeper.Keep
 		e.actorOf[a.String()] = i
 		e.actorOf[types.ExternalAddrToStr(chain, a.Bytes())] = i
 	}
+	// token index order = order of the contract strings = order of the pool keys' contract component
+	var contracts []string
 	for i := 0; i < nTokens; i++ {
-		contract := types.ExternalAddrToStr(chain, detBytes(chain+"/token", i))
+		contracts = append(contracts, types.ExternalAddrToStr(chain, detBytes(chain+"/token", i)))
+	}
+	sort.Strings(contracts)
+	for i := 0; i < nTokens; i++ {
+		contract := contracts[i]
 		ti := tokenInfo{base: fmt.Sprintf("v%stok%d", chain, i), bridge: types.NewBridgeDenom(chain, contract), contract: contract}
 		if err := k.SetToken(s.Ctx, "Test Token", ti.base, 18, ti.bridge); err != nil {
 			t.Fatalf("set token: %v", err)
@@ -100,6 +112,11 @@ func setupChain(t *testing.T, s *hx.Suite, chain string, k crosschainkeeper.Keep
 	}
 	for i := 0; i < 3; i++ {
 		e.dests = append(e.dests, types.ExternalAddrToStr(chain, detBytes(chain+"/dest", i)))
+	}
+	p := k.GetParams(s.Ctx)
+	p.SignedWindow = 1 << 50 // EndBlocker runs for real; its slashing part never starts (C07 / C13 cover slashing)
+	if err := k.SetParams(s.Ctx, &p); err != nil {
+		t.Fatalf("set params: %v", err)
 	}
 	e.params = k.GetParams(s.Ctx)
 	return e
@@ -150,6 +167,86 @@ type seq struct {
 	refundedCall                map[int]bool
 	executedCall                map[int]bool
 	otherN                      int
+	// external chain ghost: what the bridge contract knows / would accept
+	extBatches  map[[2]int]batchRec // (token, nonce) -> every batch fxcore ever created
+	extLast     []int               // state_lastBatchNonces per token
+	extMaxH     uint64              // highest external height reported by an observed event
+	extCalls    map[int]callRec     // every outgoing bridge call fxcore ever created
+	extCallDone map[int]bool        // state_lastBridgeCallNonces
+	extExecTx   map[int]bool        // transfers paid out on the external chain
+	blockJump   int64               // fxcore blocks since the last observation
+	admMode     bool                // the generator produces admissible events only
+	// the ghost exactly as Model/C05Ext.lean defines it (Ext / Ext.next / admissible): compared with the Lean driver's
+	// verdict on every observation line, and used for the theorem-shaped monitor (whole run admissible => event applied)
+	lg leanGhost
+}
+
+type leanGhost struct {
+	height     uint64
+	lastNonce  map[int]int
+	created    map[[2]int]uint64 // (token, nonce) -> timeout
+	calls      map[int]uint64    // nonce -> timeout
+	callDone   map[int]bool
+	allAdm     bool // every observed event so far was admissible
+	admNow     string
+}
+
+// leanStep mirrors `admissible` and `Ext.next`.
+func (q *seq) leanStep(op, res string, pre, post snap) {
+	g := &q.lg
+	w := strings.Fields(op)
+	g.admNow = "-"
+	switch w[0] {
+	case "reqbatch":
+		for _, b := range post.batches[min(len(pre.batches), len(post.batches)):] { // drop |old batches| (sorted by nonce: new one is last)
+			g.created[[2]int{b.token, b.nonce}] = b.timeout
+		}
+	case "bcall":
+		for _, c := range post.calls[min(len(pre.calls), len(post.calls)):] {
+			g.calls[c.nonce] = c.timeout
+		}
+	case "obs":
+		h, _ := strconv.ParseUint(w[1], 10, 64)
+		adm := g.height <= h
+		switch w[2] {
+		case "batch":
+			t, _ := strconv.Atoi(w[3])
+			n, _ := strconv.Atoi(w[4])
+			to, ok := g.created[[2]int{t, n}]
+			adm = adm && ok && g.lastNonce[t] < n && h < to
+			g.lastNonce[t] = n
+		case "result":
+			c, _ := strconv.Atoi(w[3])
+			to, ok := g.calls[c]
+			adm = adm && ok && !g.callDone[c] && h < to
+			g.callDone[c] = true
+		}
+		g.height = h
+		g.admNow = "0"
+		if adm {
+			g.admNow = "1"
+		}
+		if !adm {
+			g.allAdm = false
+		}
+		if g.allAdm {
+			q.out.Count("env:admissible-run-so-far:obs")
+			// the statement of Props.C06.admissible_event_finds_record / Props.C05.observed_execution_settles on the real run
+			if !strings.HasPrefix(res, "ok") {
+				propFilter{q.out}.Violate("C05/C06 admissible event not applied: every observed event of the run satisfies the bridge contract's rules with non-decreasing heights, yet the claim for this one failed (" + res + "): fxcore no longer holds the record the external chain just ran")
+			}
+			if w[2] == "result" {
+				c, _ := strconv.Atoi(w[3])
+				held := false
+				for _, x := range pre.calls {
+					held = held || x.nonce == c
+				}
+				if !held {
+					propFilter{q.out}.Violate("C05/C06 admissible event not applied: the outgoing bridge call of an admissible result event is no longer stored")
+				}
+			}
+		}
+	}
 }
 
 func (q *seq) txOf(tx *types.OutgoingTransferTx) txRec {
@@ -170,7 +267,7 @@ func (q *seq) snapshot() snap {
 	for _, tx := range k.GetUnbatchedTransactions(ctx) {
 		sn.pool = append(sn.pool, q.txOf(tx))
 	}
-	sort.Slice(sn.pool, func(i, j int) bool { return sn.pool[i].id < sn.pool[j].id })
+	// pool kept in the store's iteration order (reverse key order: contract, fee, id descending)
 	for _, b := range k.GetOutgoingTxBatches(ctx) {
 		tk, ok := q.e.tokenOf[b.TokenContract]
 		if !ok {
@@ -439,7 +536,9 @@ func (q *seq) opParams(p1, p2, p3, p4 uint64) (string, string) {
 
 func (q *seq) opBlock(n int64) (string, string) {
 	q.ctx = q.ctx.WithBlockHeight(q.ctx.BlockHeight() + n)
-	return fmt.Sprintf("block %d", n), "ok:0"
+	// the keeper's real EndBlocker at the new height (as the module's EndBlock does), in its own cache context
+	res := q.deliver(nil, func(ctx sdk.Context) (uint64, error) { q.e.k.EndBlocker(ctx); return 0, nil })
+	return fmt.Sprintf("block %d", n), res
 }
 
 // ---------------------------------------------------------------------------------------------------------
@@ -449,8 +548,18 @@ func (q *seq) opBlock(n int64) (string, string) {
 // descriptions start with the property id(s) they belong to.
 type propFilter struct{ out *hx.Out }
 
+// every distinct description is recorded at most twice (shortest replay first seen), so that a frequent violation — the
+// known finding in particular — cannot fill hx.Out's buffer of 50 and mask the others
+var violSeen = map[string]int{}
+
 func (p propFilter) Violate(desc string) {
 	if prop := os.Getenv("VERIF_PROP"); prop != "" && !strings.Contains(strings.SplitN(desc, " ", 2)[0], prop) {
+		return
+	}
+	key := regexp.MustCompile(`[0-9]+`).ReplaceAllString(desc, "#")
+	violSeen[key]++
+	p.out.Count("violation:" + key[:min(len(key), 60)])
+	if violSeen[key] > 2 {
 		return
 	}
 	p.out.Violate(desc)
@@ -464,9 +573,251 @@ func poolIdx(sn snap) map[int]txRec {
 	return m
 }
 
+// projected returns the external height fxcore would *project* from its own clock (the formula of
+// CalExternalTimeoutHeight without the timeout period), for the scenario statistics.
+func (q *seq) projected() uint64 {
+	h := q.e.k.GetLastObservedBlockHeight(q.ctx)
+	p := q.e.k.GetParams(q.ctx)
+	fx := uint64(q.ctx.BlockHeight())
+	if fx < h.BlockHeight || p.AverageExternalBlockTime == 0 {
+		return h.ExternalBlockHeight
+	}
+	return (fx-h.BlockHeight)*p.AverageBlockTime/p.AverageExternalBlockTime + h.ExternalBlockHeight
+}
+
+// extMonitor maintains the external-chain ghost and states the clauses that involve it: an event the bridge contract
+// can produce (admissible) must find its record on fxcore, and nothing paid out externally is refunded or batched again.
+func (q *seq) extMonitor(op, res string, pre, post snap) {
+	out := propFilter{q.out}
+	w := strings.Fields(op)
+	okRes := strings.HasPrefix(res, "ok")
+	switch w[0] {
+	case "reqbatch":
+		if pre.obsExt == 0 {
+			q.out.Count("scn:create-before-observation:reqbatch:" + strings.SplitN(res, ":", 2)[0])
+		}
+		if !okRes {
+			return
+		}
+		n, _ := strconv.Atoi(strings.TrimPrefix(res, "ok:"))
+		for _, b := range post.batches {
+			if b.nonce == n {
+				q.extBatches[[2]int{b.token, b.nonce}] = b
+				inflightOther := 0
+				for _, o := range post.batches {
+					if o.token != b.token {
+						inflightOther++
+					}
+				}
+				q.out.Count(fmt.Sprintf("scn:batch-created:other-token-batches-in-flight=%d", min(inflightOther, 3)))
+				for _, t := range b.txs {
+					if q.extExecTx[t.id] {
+						out.Violate("C05 settled exactly once: transfer already paid out on the external chain is batched again")
+					}
+				}
+			}
+		}
+	case "bcall":
+		if pre.obsExt == 0 {
+			q.out.Count("scn:create-before-observation:bcall:" + strings.SplitN(res, ":", 2)[0])
+		}
+		if !okRes {
+			return
+		}
+		n, _ := strconv.Atoi(strings.TrimPrefix(res, "ok:"))
+		for _, c := range post.calls {
+			if c.nonce == n {
+				q.extCalls[n] = c
+			}
+		}
+	case "cancel":
+		id, _ := strconv.Atoi(w[1])
+		if okRes && q.extExecTx[id] {
+			out.Violate("C05 executed never refunded: transfer paid out on the external chain refunded by cancel")
+		}
+	case "incfee":
+		if okRes {
+			id, _ := strconv.Atoi(w[1])
+			who, _ := strconv.Atoi(w[2])
+			if t, ok := poolIdx(pre)[id]; ok && t.sender != who {
+				q.out.Count("scn:incfee:by-non-creator:ok")
+			} else {
+				q.out.Count("scn:incfee:by-creator:ok")
+			}
+		}
+	case "block":
+		n, _ := strconv.ParseInt(w[1], 10, 64)
+		q.blockJump += n
+		// how fxcore's own clock / projection relates to the timeouts of the records in flight (after the jump)
+		proj, fx := q.projected(), uint64(q.ctx.BlockHeight())
+		cls := map[string]bool{}
+		each := func(kind string, timeout uint64) {
+			if pre.obsExt < timeout {
+				if proj > timeout {
+					cls["scn:block:"+kind+":projected-height-past-timeout,observed-below"] = true
+				}
+				if fx > timeout {
+					cls["scn:block:"+kind+":fx-height-past-timeout,observed-below"] = true
+				}
+				if fx < pre.obsExt {
+					cls["scn:block:"+kind+":fx-height-below-observed-external"] = true
+				}
+			}
+		}
+		for _, b := range pre.batches {
+			each("batch", b.timeout)
+		}
+		for _, c := range pre.calls {
+			each("call", c.timeout)
+		}
+		for k := range cls {
+			q.out.Count(k)
+		}
+	case "obs":
+		h, _ := strconv.ParseUint(w[1], 10, 64)
+		// boundary statistics: observed height against the timeouts of the records in flight
+		bnd := map[string]bool{}
+		cls := func(kind string, timeout uint64) {
+			switch {
+			case h+1 == timeout:
+				bnd["bnd:obs:"+kind+":height=timeout-1"] = true
+			case h == timeout:
+				bnd["bnd:obs:"+kind+":height=timeout"] = true
+			case h == timeout+1:
+				bnd["bnd:obs:"+kind+":height=timeout+1"] = true
+			}
+		}
+		for _, b := range pre.batches {
+			cls("batch", b.timeout)
+		}
+		for _, c := range pre.calls {
+			cls("call", c.timeout)
+		}
+		for k := range bnd {
+			q.out.Count(k)
+		}
+		monotone := h >= q.extMaxH
+		if monotone {
+			q.out.Count("env:obs:height-non-decreasing")
+		} else {
+			q.out.Count("env:obs:height-lower-than-before")
+		}
+		switch w[2] {
+		case "batch":
+			tk, _ := strconv.Atoi(w[3])
+			n, _ := strconv.Atoi(w[4])
+			eb, created := q.extBatches[[2]int{tk, n}]
+			adm := monotone && created && n > q.extLast[tk] && h < eb.timeout
+			if !adm {
+				q.out.Count("env:batch-exec:inadmissible:" + strings.SplitN(res, ":", 2)[0])
+				if okRes && created { // outside the environment assumptions, but fxcore applied it: the ghost follows
+					q.extLast[tk] = max(q.extLast[tk], n)
+					for _, t := range eb.txs {
+						q.extExecTx[t.id] = true
+					}
+				}
+				break
+			}
+			q.out.Count("env:batch-exec:admissible:" + strings.SplitN(res, ":", 2)[0])
+			lowerSame, lowerOther := 0, 0
+			for _, b := range pre.batches {
+				if b.nonce < n && b.token == tk {
+					lowerSame++
+				}
+				if b.nonce < n && b.token != tk {
+					lowerOther++
+				}
+			}
+			if lowerSame > 0 {
+				q.out.Count("scn:exec:lower-nonce-same-token-in-flight")
+			}
+			if lowerOther > 0 {
+				q.out.Count("scn:exec:lower-nonce-other-token-in-flight")
+			}
+			if !okRes {
+				out.Violate("C05/C06 settled exactly once: the external chain executed a batch the bridge contract accepts (nonce above the last executed nonce of its token, block below its timeout, heights non-decreasing) but fxcore no longer holds it: cancelled while still executable, its transfers are back in the pool (refundable / batched again), result " + res)
+			}
+			q.extLast[tk] = n
+			for _, t := range eb.txs {
+				q.extExecTx[t.id] = true
+				if !okRes {
+					if _, inPool := poolIdx(post)[t.id]; inPool {
+						q.out.Count("scn:paid-out-externally-but-back-in-pool")
+					}
+				}
+			}
+		case "result":
+			c, _ := strconv.Atoi(w[3])
+			ec, created := q.extCalls[c]
+			adm := monotone && created && !q.extCallDone[c] && h < ec.timeout
+			if !adm {
+				q.out.Count("env:call-result:inadmissible:" + strings.SplitN(res, ":", 2)[0])
+			} else {
+				q.out.Count("env:call-result:admissible:" + strings.SplitN(res, ":", 2)[0])
+				held := false
+				for _, x := range pre.calls {
+					if x.nonce == c {
+						held = true
+					}
+				}
+				if !held {
+					out.Violate("C05/C06 executed never refunded: the external chain ran an outgoing bridge call the bridge contract accepts (nonce not used, block below its timeout, heights non-decreasing) but fxcore no longer holds the record: it was released before an observed event proved the timeout")
+				}
+			}
+			q.extCallDone[c] = true // also for a nonce that does not exist (yet): the contract reports a nonce at most once
+		}
+		if okRes {
+			if h > q.extMaxH {
+				q.extMaxH = h
+			}
+			q.blockJump = 0
+		}
+	}
+}
+
+// inside returns, per token, the value fxcore accounts for: balances of the actors + queued transfers (amount + fee, pool
+// and batches) + coins of the stored outgoing bridge calls.  Only an observed execution moves value out of this sum.
+func inside(sn snap) []int64 {
+	tot := make([]int64, nTokens)
+	for i, b := range sn.bal {
+		tot[i%nTokens] += b
+	}
+	add := func(t txRec) {
+		if t.token >= 0 && t.token < nTokens {
+			tot[t.token] += t.amount + t.fee
+		}
+	}
+	for _, t := range sn.pool {
+		add(t)
+	}
+	for _, b := range sn.batches {
+		for _, t := range b.txs {
+			add(t)
+		}
+	}
+	for _, c := range sn.calls {
+		for _, x := range c.coins {
+			if x[0] >= 0 && x[0] < nTokens {
+				tot[x[0]] += x[1]
+			}
+		}
+	}
+	return tot
+}
+
 func (q *seq) monitor(op, res string, pre, post snap) {
 	out := propFilter{q.out}
 	w := strings.Fields(op)
+	movedOut := make([]int64, nTokens) // value an observed execution takes out, per token
+	defer func() {
+		a, b := inside(pre), inside(post)
+		for t := range a {
+			if b[t]-a[t] != -movedOut[t] {
+				out.Violate(fmt.Sprintf("C05 conservation: per token, balances of the actors + queued transfers (amount+fee) + stored bridge calls changed by %d, expected %d (only an observed execution moves value out), at %s", b[t]-a[t], -movedOut[t], strings.Join(w[:min(len(w), 3)], " ")))
+				break
+			}
+		}
+	}()
 	// C05 partition: every id in at most one place, in pool or exactly one batch
 	place := map[int]int{}
 	for _, t := range post.pool {
@@ -510,6 +861,38 @@ func (q *seq) monitor(op, res string, pre, post snap) {
 		for _, t := range b.txs {
 			if p, ok := prePlace[t.id]; ok && p != t {
 				out.Violate("C05 unchanged: batched transfer data changed by " + w[0])
+			}
+		}
+	}
+	// C06 (and C05 "exactly one state"): nothing leaves a batch, and no batch / outgoing bridge call leaves the store, except
+	// at the observation of an external event (or, for a bridge call, when an observed result is applied)
+	if w[0] != "obs" {
+		for id, b := range preBatchOf {
+			found := false
+			for _, pb := range post.batches {
+				if pb.nonce == b.nonce && pb.token == b.token {
+					for _, t := range pb.txs {
+						if t.id == id {
+							found = true
+						}
+					}
+				}
+			}
+			if !found {
+				out.Violate("C05/C06 released without an observed event: a transfer left its batch (or the batch left the store) at " + w[0] + ", not at the observation of an external event")
+				break
+			}
+		}
+		if w[0] != "exec" {
+			postC := map[int]bool{}
+			for _, c := range post.calls {
+				postC[c.nonce] = true
+			}
+			for _, c := range pre.calls {
+				if !postC[c.nonce] {
+					out.Violate("C05/C06 released without an observed event: an outgoing bridge call left the store at " + w[0] + ", not at the observation of an external event")
+					break
+				}
 			}
 		}
 	}
@@ -689,6 +1072,9 @@ func (q *seq) monitor(op, res string, pre, post snap) {
 					}
 					q.executedTx[t.id] = true
 					q.goneTx[t.id] = "executed"
+					if t.token >= 0 && t.token < nTokens {
+						movedOut[t.token] += t.amount + t.fee
+					}
 				}
 				continue
 			}
@@ -700,7 +1086,11 @@ func (q *seq) monitor(op, res string, pre, post snap) {
 			}
 			superseded := w[2] == "batch" && b.token == execTok && b.nonce < executed
 			if !superseded && !(b.timeout <= h) {
-				out.Violate("C06 release only after timeout height observed: batch cancelled while observed external height < its timeout")
+				if w[2] == "batch" {
+					out.Violate("C05/C06 cancelled by an execution: the observed execution of a batch cancelled a batch that it does not supersede (another token, or a higher nonce) while the observed external height is below its timeout, so the external chain can still run it")
+				} else {
+					out.Violate("C06 release only after timeout height observed: batch cancelled while observed external height < its timeout")
+				}
 			}
 		}
 		for _, t := range disappeared {
@@ -760,6 +1150,9 @@ func (q *seq) monitor(op, res string, pre, post snap) {
 			}
 			if pc[2] == 1 {
 				q.executedCall[c.nonce] = true
+				for _, x := range c.coins {
+					movedOut[x[0]] += x[1]
+				}
 			} else {
 				q.refundedCall[c.nonce] = true
 				for _, x := range c.coins {
@@ -787,8 +1180,10 @@ func (q *seq) do(f func() (string, string)) string {
 	pre := q.snapshot()
 	op, res := f()
 	post := q.snapshot()
+	q.leanStep(op, res, pre, post)
+	q.out.Emit(op, q.line(res, post)+" adm="+q.lg.admNow) // first, so that the replay of a violation ends with the op that violates
+	q.extMonitor(op, res, pre, post)
 	q.monitor(op, res, pre, post)
-	q.out.Emit(op, q.line(res, post))
 	w := strings.Fields(op)
 	kind := w[0]
 	if kind == "obs" {
@@ -838,6 +1233,42 @@ func (q *seq) boundaryHeight(sn snap) uint64 {
 		return sn.obsExt - uint64(1+q.rng.Intn(3))
 	}
 	return sn.obsExt + uint64(1+q.rng.Intn(40))
+}
+
+// extExecutable lists, in nonce order, the batches the bridge contract would still accept at some height >= the highest
+// height reported so far: created by fxcore, nonce above the last executed nonce of the token, timeout not reached.
+func (q *seq) extExecutable() []batchRec {
+	var l []batchRec
+	for k, b := range q.extBatches {
+		if k[1] > q.extLast[k[0]] && max(q.extMaxH, 1) < b.timeout {
+			l = append(l, b)
+		}
+	}
+	sort.Slice(l, func(i, j int) bool { return l[i].nonce < l[j].nonce })
+	return l
+}
+
+func (q *seq) extRunnableCalls() []callRec {
+	var l []callRec
+	for n, c := range q.extCalls {
+		if !q.extCallDone[n] && max(q.extMaxH, 1) < c.timeout {
+			l = append(l, c)
+		}
+	}
+	sort.Slice(l, func(i, j int) bool { return l[i].nonce < l[j].nonce })
+	return l
+}
+
+// admissibleHeight picks a height in [highest reported height, timeout): no time passed, the last possible block, or near.
+func (q *seq) admissibleHeight(timeout uint64) uint64 {
+	lo, hi := max(q.extMaxH, 1), timeout-1
+	switch q.rng.Intn(5) {
+	case 0, 1:
+		return lo
+	case 2:
+		return hi
+	}
+	return lo + uint64(q.rng.Intn(int(min(hi-lo, 40))+1))
 }
 
 func (q *seq) randomOp() {
@@ -900,8 +1331,11 @@ func (q *seq) randomOp() {
 		q.genReqBatch(sn)
 	case r < 64:
 		n := int64(1 + q.rng.Intn(3))
-		if q.rng.Intn(6) == 0 { // fxcore's clock runs far ahead of the observed external height
+		switch q.rng.Intn(6) {
+		case 0: // fxcore's clock runs far ahead of the observed external height
 			n = int64(2000 + q.rng.Intn(60000))
+		case 1: // a quiet period just long enough for the *projected* external height to pass a timeout in flight
+			n = q.quietPeriod(sn)
 		}
 		q.do(func() (string, string) { return q.opBlock(n) })
 	case r < 84: // observation
@@ -910,10 +1344,43 @@ func (q *seq) randomOp() {
 			h = 1
 		}
 		k := q.rng.Intn(100)
+		ex, rc := q.extExecutable(), q.extRunnableCalls()
+		if q.admMode { // only events the bridge contract can produce, heights never decrease
+			if h < q.lg.height {
+				h = q.lg.height + uint64(q.rng.Intn(3))
+			}
+			switch {
+			case k < 40 && len(ex) > 0:
+				b := ex[q.rng.Intn(len(ex))]
+				if q.rng.Intn(3) == 0 {
+					b = ex[len(ex)-1]
+				}
+				ah := q.admissibleHeight(b.timeout)
+				q.do(func() (string, string) { return q.opObsBatch(ah, b.token, uint64(b.nonce)) })
+			case k < 65 && len(rc) > 0:
+				c := rc[q.rng.Intn(len(rc))]
+				ah := q.admissibleHeight(c.timeout)
+				q.do(func() (string, string) { return q.opObsResult(ah, uint64(c.nonce), q.rng.Intn(2) == 0) })
+			default:
+				q.do(func() (string, string) { return q.opObsOther(h) })
+			}
+			break
+		}
 		switch {
+		case k < 24 && len(ex) > 0: // what the external chain can do: any batch the contract still accepts, any order
+			b := ex[q.rng.Intn(len(ex))]
+			if q.rng.Intn(3) == 0 { // prefer the highest nonce: earlier batches of the token are superseded, others must survive
+				b = ex[len(ex)-1]
+			}
+			ah := q.admissibleHeight(b.timeout)
+			q.do(func() (string, string) { return q.opObsBatch(ah, b.token, uint64(b.nonce)) })
 		case k < 35 && len(sn.batches) > 0:
 			b := sn.batches[q.rng.Intn(len(sn.batches))]
 			q.do(func() (string, string) { return q.opObsBatch(h, b.token, uint64(b.nonce)) })
+		case k >= 39 && k < 50 && len(rc) > 0: // a bridge call the contract still accepts
+			c := rc[q.rng.Intn(len(rc))]
+			ah := q.admissibleHeight(c.timeout)
+			q.do(func() (string, string) { return q.opObsResult(ah, uint64(c.nonce), q.rng.Intn(2) == 0) })
 		case k >= 35 && k < 39:
 			q.do(func() (string, string) { return q.opObsBatch(h, q.rng.Intn(nTokens), uint64(q.rng.Intn(int(q.lastBatch)+2))) })
 		case k < 60 && len(sn.calls) > 0:
@@ -951,6 +1418,33 @@ func (q *seq) randomOp() {
 		ct := []uint64{3600001, 3700000, 604800000, 3600000}[q.rng.Intn(4)]
 		q.do(func() (string, string) { return q.opParams(ab, ae, bt, ct) })
 	}
+}
+
+// quietPeriod returns a number of fxcore blocks after which fxcore's projection of the external height (see
+// CalExternalTimeoutHeight) reaches the timeout of a record in flight (-1 / exactly / +1 external block), although no
+// event has been observed.
+func (q *seq) quietPeriod(sn snap) int64 {
+	var cands []uint64
+	for _, b := range sn.batches {
+		cands = append(cands, b.timeout)
+	}
+	for _, c := range sn.calls {
+		cands = append(cands, c.timeout)
+	}
+	p := q.e.k.GetParams(q.ctx)
+	if len(cands) == 0 || p.AverageBlockTime == 0 {
+		return int64(50 + q.rng.Intn(200))
+	}
+	t := cands[q.rng.Intn(len(cands))] + uint64(q.rng.Intn(3))
+	proj := q.projected()
+	if t <= proj {
+		return int64(1 + q.rng.Intn(5))
+	}
+	n := (t-proj)*p.AverageExternalBlockTime/p.AverageBlockTime + uint64(q.rng.Intn(3))
+	if n == 0 || n > 5_000_000 {
+		n = uint64(1 + q.rng.Intn(100))
+	}
+	return int64(n)
 }
 
 func (q *seq) genReqBatch(sn snap) {
@@ -1063,16 +1557,205 @@ func (q *seq) scripted(kind int) {
 			q.do(func() (string, string) { return q.opObsOther(t) })
 			q.do(func() (string, string) { return q.opExec(pend) })
 		}
+	case 4: // several tokens, interleaved batch nonces, executions in every order the bridge contract accepts
+		q.do(func() (string, string) { return q.opObsOther(uint64(300 + q.rng.Intn(300))) })
+		order := q.rng.Perm(nTokens)
+		for round := 0; round < 2; round++ {
+			for _, tk := range order {
+				send(q.rng.Intn(nActors), tk, int64(50+q.rng.Intn(50)), int64(2+round*3))
+				send(q.rng.Intn(nActors), tk, int64(50+q.rng.Intn(50)), int64(3+round*3))
+				q.do(func() (string, string) { return q.opBlock(1) })
+				q.do(func() (string, string) { return q.opReqBatch(tk, 1, int64(2+round*3), d[1]) })
+			}
+		}
+		for i := 0; i < 2*nTokens; i++ {
+			ex := q.extExecutable()
+			if len(ex) == 0 {
+				break
+			}
+			b := ex[q.rng.Intn(len(ex))]
+			if i == 0 {
+				b = ex[len(ex)-1-q.rng.Intn(min(len(ex), 2))] // a late batch first
+			}
+			ah := q.admissibleHeight(b.timeout)
+			q.do(func() (string, string) { return q.opObsBatch(ah, b.token, uint64(b.nonce)) })
+			if q.rng.Intn(3) == 0 {
+				sn := q.snapshot()
+				if len(sn.pool) > 0 {
+					t := sn.pool[q.rng.Intn(len(sn.pool))]
+					q.do(func() (string, string) { return q.opCancel(uint64(t.id), t.sender) })
+				}
+			}
+		}
+	case 5: // a quiet bridge: no event for longer than the timeout period on fxcore's clock, then the external chain acts
+		q.do(func() (string, string) { return q.opParams(1000, 3000, 60000, 3600001) })
+		q.do(func() (string, string) { return q.opObsOther(uint64(100 + q.rng.Intn(900))) })
+		send(0, 0, 100, 2)
+		send(1, 1, 100, 3)
+		q.do(func() (string, string) { return q.opReqBatch(0, 1, 0, d[1]) })
+		q.do(func() (string, string) { return q.opBlock(1) })
+		q.do(func() (string, string) { return q.opReqBatch(1, 1, 0, d[1]) })
+		q.do(func() (string, string) {
+			return q.opBridgeCall(2, 3, d[2], "ab", "", [][2]int64{{0, 40}})
+		})
+		sn := q.snapshot()
+		q.do(func() (string, string) { return q.opBlock(q.quietPeriod(sn)) })
+		q.do(func() (string, string) { return q.opBlock(int64(100 + q.rng.Intn(5000))) })
+		// the external chain is slower than projected: it still runs what it holds
+		for _, b := range q.extExecutable() {
+			ah := q.admissibleHeight(b.timeout)
+			q.do(func() (string, string) { return q.opObsBatch(ah, b.token, uint64(b.nonce)) })
+		}
+		for _, c := range q.extRunnableCalls() {
+			ah := q.admissibleHeight(c.timeout)
+			q.do(func() (string, string) { return q.opObsResult(ah, uint64(c.nonce), true) })
+			q.do(func() (string, string) { return q.opExec(q.e.k.GetLastObservedEventNonce(q.ctx)) })
+		}
+	}
+}
+
+// ---------------------------------------------------------------------------------------------------------
+// corpus: hand-shrunk witnesses of scenario classes, replayed first on every run (corpus/C05/*.txt, corpus/C06/*.txt).
+// One op per line in the op-line syntax; `D0..D2` stand for the chain's destination addresses; a height may be written
+// `TB<n>`, `TB<n>-1`, `TB<n>+1` (timeout of batch nonce n) or `TC<n>…` (timeout of bridge call nonce n); `#` comments.
+
+func (q *seq) resolveHeight(w string) uint64 {
+	if v, err := strconv.ParseUint(w, 10, 64); err == nil {
+		return v
+	}
+	m := regexp.MustCompile(`^T([BC])([0-9]+)([+-][0-9]+)?$`).FindStringSubmatch(w)
+	if m == nil {
+		panic("corpus: bad height " + w)
+	}
+	n, _ := strconv.Atoi(m[2])
+	var t uint64
+	if m[1] == "B" {
+		for k, b := range q.extBatches {
+			if k[1] == n {
+				t = b.timeout
+			}
+		}
+	} else {
+		t = q.extCalls[n].timeout
+	}
+	if m[3] != "" {
+		d, _ := strconv.ParseInt(m[3], 10, 64)
+		t = uint64(int64(t) + d)
+	}
+	return t
+}
+
+func (q *seq) addr(w string) string {
+	if len(w) == 2 && w[0] == 'D' && w[1] >= '0' && w[1] <= '2' {
+		return q.e.dests[w[1]-'0']
+	}
+	return w
+}
+
+func undash(s string) string {
+	if s == "-" {
+		return ""
+	}
+	return s
+}
+
+func (q *seq) replayLine(line string) {
+	w := strings.Fields(line)
+	num := func(i int) int64 {
+		v, err := strconv.ParseInt(w[i], 10, 64)
+		if err != nil {
+			panic("corpus: bad number in: " + line)
+		}
+		return v
+	}
+	switch {
+	case w[0] == "send" && len(w) == 6:
+		q.do(func() (string, string) { return q.opSend(int(num(1)), q.addr(w[2]), int(num(3)), num(4), num(5)) })
+	case w[0] == "cancel" && len(w) == 3:
+		q.do(func() (string, string) { return q.opCancel(uint64(num(1)), int(num(2))) })
+	case w[0] == "incfee" && len(w) == 5:
+		q.do(func() (string, string) { return q.opIncFee(uint64(num(1)), int(num(2)), int(num(3)), num(4)) })
+	case w[0] == "reqbatch" && len(w) == 5:
+		q.do(func() (string, string) { return q.opReqBatch(int(num(1)), num(2), num(3), q.addr(w[4])) })
+	case w[0] == "bcall" && len(w) == 7:
+		var coins [][2]int64
+		if w[6] != "-" {
+			for _, c := range strings.Split(w[6], ",") {
+				p := strings.Split(c, ":")
+				t, _ := strconv.ParseInt(p[0], 10, 64)
+				a, _ := strconv.ParseInt(p[1], 10, 64)
+				coins = append(coins, [2]int64{t, a})
+			}
+		}
+		q.do(func() (string, string) {
+			return q.opBridgeCall(int(num(1)), int(num(2)), q.addr(w[3]), undash(w[4]), undash(w[5]), coins)
+		})
+	case w[0] == "obs" && len(w) == 3 && w[2] == "other":
+		h := q.resolveHeight(w[1])
+		q.do(func() (string, string) { return q.opObsOther(h) })
+	case w[0] == "obs" && len(w) == 5 && w[2] == "batch":
+		h := q.resolveHeight(w[1])
+		q.do(func() (string, string) { return q.opObsBatch(h, int(num(3)), uint64(num(4))) })
+	case w[0] == "obs" && len(w) == 5 && w[2] == "result":
+		h := q.resolveHeight(w[1])
+		q.do(func() (string, string) { return q.opObsResult(h, uint64(num(3)), w[4] == "1") })
+	case w[0] == "exec" && len(w) == 2:
+		n := uint64(0)
+		if w[1] == "last" {
+			n = q.e.k.GetLastObservedEventNonce(q.ctx)
+		} else {
+			n = uint64(num(1))
+		}
+		q.do(func() (string, string) { return q.opExec(n) })
+	case w[0] == "params" && len(w) == 5:
+		q.do(func() (string, string) { return q.opParams(uint64(num(1)), uint64(num(2)), uint64(num(3)), uint64(num(4))) })
+	case w[0] == "block" && len(w) == 2:
+		q.do(func() (string, string) { return q.opBlock(num(1)) })
+	default:
+		panic("corpus: bad line: " + line)
+	}
+}
+
+func newSeq(e *env, out *hx.Out, rng *rand.Rand) *seq {
+	ctx, _ := e.base.CacheContext()
+	q := &seq{e: e, ctx: ctx.WithEventManager(sdk.NewEventManager()), out: out, rng: rng, everPresent: map[int]bool{}, goneTx: map[int]string{}, executedTx: map[int]bool{},
+		refundedTx: map[int]bool{}, obsSuccessCall: map[int]bool{}, refundedCall: map[int]bool{}, executedCall: map[int]bool{},
+		extBatches: map[[2]int]batchRec{}, extLast: make([]int, nTokens), extCalls: map[int]callRec{}, extCallDone: map[int]bool{}, extExecTx: map[int]bool{},
+		lg: leanGhost{lastNonce: map[int]int{}, created: map[[2]int]uint64{}, calls: map[int]uint64{}, callDone: map[int]bool{}, allAdm: true}}
+	p := e.params
+	out.Reset(strconv.Itoa(nActors), strconv.Itoa(nTokens), strconv.Itoa(2*fundEach), fmt.Sprint(p.AverageBlockTime), fmt.Sprint(p.AverageExternalBlockTime),
+		fmt.Sprint(p.ExternalBatchTimeout), fmt.Sprint(p.BridgeCallTimeout), fmt.Sprint(q.ctx.BlockHeight()))
+	return q
+}
+
+// runCorpus replays every corpus file of both properties on both chains.
+func runCorpus(envs []*env, out *hx.Out, rng *rand.Rand) {
+	dir := os.Getenv("VERIF_CORPUS")
+	if dir == "" {
+		return
+	}
+	var files []string
+	for _, d := range []string{filepath.Join(filepath.Dir(dir), "C05"), filepath.Join(filepath.Dir(dir), "C06")} {
+		m, _ := filepath.Glob(filepath.Join(d, "*.txt"))
+		files = append(files, m...)
+	}
+	sort.Strings(files)
+	for _, f := range files {
+		for _, e := range envs {
+			q := newSeq(e, out, rng)
+			out.Count("seq:corpus")
+			for _, l := range hx.ReadLines(f) {
+				if strings.HasPrefix(strings.TrimSpace(l), "#") {
+					continue
+				}
+				q.replayLine(l)
+			}
+		}
 	}
 }
 
 func runSeq(e *env, out *hx.Out, rng *rand.Rand, idx int, nOps int, script int) {
-	ctx, _ := e.base.CacheContext()
-	q := &seq{e: e, ctx: ctx.WithEventManager(sdk.NewEventManager()), out: out, rng: rng, everPresent: map[int]bool{}, goneTx: map[int]string{}, executedTx: map[int]bool{},
-		refundedTx: map[int]bool{}, obsSuccessCall: map[int]bool{}, refundedCall: map[int]bool{}, executedCall: map[int]bool{}}
-	p := e.params
-	out.Reset(strconv.Itoa(nActors), strconv.Itoa(nTokens), strconv.Itoa(2*fundEach), fmt.Sprint(p.AverageBlockTime), fmt.Sprint(p.AverageExternalBlockTime),
-		fmt.Sprint(p.ExternalBatchTimeout), fmt.Sprint(p.BridgeCallTimeout), fmt.Sprint(q.ctx.BlockHeight()))
+	q := newSeq(e, out, rng)
 	_ = idx
 	if script >= 0 {
 		out.Count(fmt.Sprintf("seq:scripted%d", script))
@@ -1083,6 +1766,10 @@ func runSeq(e *env, out *hx.Out, rng *rand.Rand, idx int, nOps int, script int) 
 		return
 	}
 	out.Count("seq:random")
+	q.admMode = rng.Intn(2) == 0
+	if q.admMode {
+		out.Count("seq:random:admissible-events-only")
+	}
 	// small timeouts make the boundary heights reachable: most sequences start by shrinking the periods
 	if rng.Intn(4) > 0 {
 		q.do(func() (string, string) {
@@ -1090,7 +1777,11 @@ func runSeq(e *env, out *hx.Out, rng *rand.Rand, idx int, nOps int, script int) 
 		})
 	}
 	if rng.Intn(5) > 0 {
-		q.do(func() (string, string) { return q.opObsOther(uint64(1 + rng.Intn(2000))) })
+		h0 := uint64(1 + rng.Intn(2000))
+		if rng.Intn(4) == 0 { // external height far above fxcore's own height
+			h0 = uint64(1_000_000 + rng.Intn(20_000_000))
+		}
+		q.do(func() (string, string) { return q.opObsOther(h0) })
 	}
 	for i := 0; i < nOps; i++ {
 		q.randomOp()
@@ -1104,7 +1795,7 @@ func TestC05(t *testing.T) {
 	seed := hx.Seed()
 	rng := rand.New(rand.NewSource(seed))
 	out := hx.NewOut()
-	defer out.Close("correspondence: real eth/bsc crosschain keepers (message servers in a tx cache context; observation through MsgClaim->Attest->TryAttestation with one oracle; ExecuteClaim) vs Lean model, full pool/batch/bridge-call/pending/height/balance state compared after every op; monitors: partition, fresh ids, settled once, executed-never-refunded, refund amounts, cancel only by sender, fee increase exact, pick = fee-descending prefix, cancelled batch restores pool, release only at observed height >= timeout, nothing batched before an observation. non-trivial = distinct final-state shapes")
+	defer out.Close("correspondence: real eth/bsc crosschain keepers (message servers in a tx cache context; observation through MsgClaim->Attest->TryAttestation with one oracle; ExecuteClaim; the keeper's real EndBlocker on every block op) vs Lean model, full state compared after every op: result, id counters, pool IN STORE ITERATION ORDER, batches with transfers, bridge calls, pending results, observed heights, balances of 4 actors x 3 tokens, and the admissibility verdict of the external-chain ghost (Lean `admissible` vs the harness' own); monitors on real state: partition, fresh ids, settled once, executed-never-refunded, refund amounts and recipients, per-token conservation, cancel only by sender, fee increase exact, pick = fee-descending prefix, cancelled batch restores pool, nothing leaves a batch/the store except at an observation, release only at observed height >= timeout, an execution cancels only what it supersedes, nothing batched before an observation, every event the bridge contract can produce finds its record (external-chain ghost from FxBridgeLogic.sol rules). non-trivial = distinct final-state shapes")
 
 	s := hx.NewSuite(t, 1)
 	envs := []*env{setupChain(t, s, "eth", s.App.EthKeeper), setupChain(t, s, "bsc", s.App.BscKeeper)}
@@ -1114,7 +1805,8 @@ func TestC05(t *testing.T) {
 	if os.Getenv("VERIF_FACTS") != "" {
 		out.Stats.Extra["facts"] = os.Getenv("VERIF_FACTS")
 	}
-	n := hx.N(140, 1500)
+	runCorpus(envs, out, rng)
+	n := hx.N(400, 3000)
 	nOps := 45
 	if hx.Tier() == "thorough" {
 		nOps = 70
@@ -1123,10 +1815,10 @@ func TestC05(t *testing.T) {
 		e := envs[i%len(envs)]
 		script := -1
 		switch {
-		case i < 8:
-			script = i % 4
-		case i%17 == 0:
-			script = 1 + rng.Intn(3)
+		case i < 12:
+			script = i % 6
+		case i%9 == 0:
+			script = 1 + rng.Intn(5)
 		}
 		runSeq(e, out, rng, i, nOps, script)
 	}
